@@ -406,7 +406,12 @@ type Cov struct {
 	States      map[string]int `json:"reader_states"`
 	Probes      map[string]int `json:"probes"`
 	Samples     []any          `json:"-"`
+	// Digest chains hashes of observable results (process independence).
+	Digest string `json:"result_digest"`
 }
+
+// AddDigest folds a result hash into the chain.
+func (c *Cov) AddDigest(h string) { c.Digest = core.Hash([]byte(c.Digest), []byte(h)) }
 
 // NewCov allocates.
 func NewCov() *Cov {
